@@ -94,9 +94,12 @@ Definition run_tx_parse (bs : bytes) : string :=
       | SBad => out3 impl "ERR" "-"
       | STrunc => out3 impl "ERR" "truncated-direct-push"
       | SGood =>
-          let enc := if canonical bs then bs else encode_tx_spec f in
+          (* canonical input: must be accepted and come back unchanged.  Any other decodable input: the property
+             only says what an accepting library must produce (the canonical re-encoding), rejecting is allowed *)
+          let can := canonical bs in
+          let enc := if can then bs else encode_tx_spec f in
           let h := if bytes_eqb enc ib then ih else sha256d enc in
-          out3 impl ("OK:" +++ show_tx_spec enc h f)
+          out3 impl ((if can then "" else "ERR~") +++ "OK:" +++ show_tx_spec enc h f)
                (if (spec_total_out f <? u64lim)%N then "-" else "satoshis-out-overflow")
       end
   end.
@@ -113,8 +116,9 @@ Definition run_txin_parse (bs : bytes) : string :=
       | SBad => out3 impl "ERR" "-"
       | STrunc => out3 impl "ERR" "truncated-direct-push"
       | SGood =>
-          let enc := if m && match rest with [] => true | _ => false end then bs else encode_in fi in
-          out3 impl ("OK:" +++ show_bytes enc +++ ";" +++ hex_of_bytes (f_prev fi) +++ ";" +++ dec_of_N (f_vout fi) +++ ";"
+          let can := m && match rest with [] => true | _ => false end in
+          let enc := if can then bs else encode_in fi in
+          out3 impl ((if can then "" else "ERR~") +++ "OK:" +++ show_bytes enc +++ ";" +++ hex_of_bytes (f_prev fi) +++ ";" +++ dec_of_N (f_vout fi) +++ ";"
                      +++ show_bytes (f_script fi) +++ ";" +++ dec_of_N (f_seq fi) +++ ";" +++ bit01 (null_outpoint fi) +++ ";"
                      +++ hex_of_bytes (spec_outpoint fi) +++ ";" +++ hex_of_bytes (f_prev fi ++ le_bytes 4 (f_vout fi))) "-"
       end
@@ -132,8 +136,9 @@ Definition run_txout_parse (bs : bytes) : string :=
       | SBad => out3 impl "ERR" "-"
       | STrunc => out3 impl "ERR" "truncated-direct-push"
       | SGood =>
-          let enc := if m && match rest with [] => true | _ => false end then bs else encode_out fo in
-          out3 impl ("OK:" +++ show_bytes enc +++ ";" +++ dec_of_N (f_value fo) +++ ";" +++ show_bytes (f_pk fo)) "-"
+          let can := m && match rest with [] => true | _ => false end in
+          let enc := if can then bs else encode_out fo in
+          out3 impl ((if can then "" else "ERR~") +++ "OK:" +++ show_bytes enc +++ ";" +++ dec_of_N (f_value fo) +++ ";" +++ show_bytes (f_pk fo)) "-"
       end
   end.
 
